@@ -160,23 +160,26 @@ theorem setActive_inv {s : St} (hi : Inv p s) (m : Mode) : Inv p (setActive s m)
     obtain ⟨hmem, hid⟩ := find_some hx
     exact ⟨hi.nodup, hi.i1, fun _ => ⟨x, hmem, hid⟩, fun h => by simp at h⟩
 
-theorem deleteMode_inv {s : St} (hi : Inv p s) (id : String) (am : Bool) : Inv p (deleteMode s id am).1 := by
+theorem deleteMode_inv {s : St} (hi : Inv p s) (id : String) (am : Bool) (ex : Option Mode) :
+    Inv p (deleteMode s id am ex).1 := by
   unfold deleteMode
   split
   · exact hi
   · rename_i hact
     split
     · split <;> exact hi
-    · refine ⟨?_, ?_, ?_, hi.blank⟩
-      · exact List.Nodup.sublist (List.Sublist.map _ (List.filter_sublist)) hi.nodup
-      · intro x hx y hy
-        simp only [eraseMode, List.mem_filter] at hx hy
-        exact hi.i1 x hx.1 y hy.1
-      · intro hc
-        obtain ⟨x, hx, hxa⟩ := hi.i3 hc
-        refine ⟨x, ?_, hxa⟩
-        simp only [eraseMode, List.mem_filter, decide_eq_true_eq]
-        exact ⟨hx, fun h => hact (by rw [← h, hxa])⟩
+    · split
+      · exact hi
+      · refine ⟨?_, ?_, ?_, hi.blank⟩
+        · exact List.Nodup.sublist (List.Sublist.map _ (List.filter_sublist)) hi.nodup
+        · intro x hx y hy
+          simp only [eraseMode, List.mem_filter] at hx hy
+          exact hi.i1 x hx.1 y hy.1
+        · intro hc
+          obtain ⟨x, hx, hxa⟩ := hi.i3 hc
+          refine ⟨x, ?_, hxa⟩
+          simp only [eraseMode, List.mem_filter, decide_eq_true_eq]
+          exact ⟨hx, fun h => hact (by rw [← h, hxa])⟩
 
 theorem mergeMode_normal (old m : Mode) (mask : Option Mask) :
     (mergeMode old m mask).normal = if writesNormal mask then m.normal else old.normal := by
@@ -184,7 +187,39 @@ theorem mergeMode_normal (old m : Mode) (mask : Option Mask) :
   | none => simp [mergeMode, writesNormal]
   | some k => simp [mergeMode, writesNormal]
 
-theorem updateMode_inv {s : St} (hi : Inv p s) (m : Mode) (mask : Option Mask) : Inv p (updateMode s m mask).1 := by
+theorem writesNormal_maskWithId (mask : Option Mask) : writesNormal (maskWithId mask) = writesNormal mask := by
+  cases mask with
+  | none => rfl
+  | some k => simp [writesNormal, maskWithId]
+
+/-- with `WithMoreUpdatePaths("id")` the written record always carries the id of the request -/
+theorem mergeMode_withId_id (old m : Mode) (mask : Option Mask) : (mergeMode old m (maskWithId mask)).id = m.id := by
+  cases mask with
+  | none => rfl
+  | some k => simp [mergeMode, maskWithId]
+
+/-- what passing the second-normal-mode guard means: when the update writes `normal = true`, every stored
+normal mode has the id of the request -/
+theorem guard_passed {s : St} (hi : Inv p s) {m : Mode} {mask : Option Mask}
+    (hguard : ¬(m.normal = true ∧ writesNormal mask = true ∧ otherNormal s m.id = true))
+    (hw : writesNormal mask = true) (hm : m.normal = true) :
+    ∀ y ∈ s.modes, y.normal = true → y.id = m.id := by
+  intro y hy hyn
+  have hno : otherNormal s m.id = false := by
+    cases h : otherNormal s m.id with
+    | false => rfl
+    | true => exact absurd ⟨hm, hw, h⟩ hguard
+  unfold otherNormal at hno
+  cases hn : normalMode s with
+  | none => have := normalMode_none hn y hy; rw [hyn] at this; cases this
+  | some n =>
+    simp only [hn, bne_eq_false_iff_eq] at hno
+    obtain ⟨hnm, hnn⟩ := normalMode_some hn
+    have := hi.i1 n hnm y hy hnn hyn
+    rw [← this]; exact hno
+
+theorem updateMode_inv {s : St} (hi : Inv p s) (m : Mode) (mask : Option Mask) (w : WOpts) :
+    Inv p (updateMode s m mask w).1 := by
   unfold updateMode
   by_cases hguard : m.normal = true ∧ writesNormal mask = true ∧ otherNormal s m.id = true
   · simp only [hguard, and_self, if_true]; exact hi
@@ -192,56 +227,76 @@ theorem updateMode_inv {s : St} (hi : Inv p s) (m : Mode) (mask : Option Mask) :
     by_cases hinv : maskInvalid mask = true
     · simp only [hinv, if_true]; exact hi
     · simp only [hinv, Bool.false_eq_true, if_false]
+      have hidnew : ∀ old, (mergeMode old m (maskWithId mask)).id = m.id := fun old => mergeMode_withId_id old m mask
       cases hold : find s m.id with
-      | none => exact hi
+      | none =>
+        simp only
+        split
+        · exact hi
+        · split
+          · exact hi
+          · -- upsert of an absent id: a new record
+            have hne := find_none hold
+            refine ⟨?_, ?_, ?_, hi.blank⟩
+            · exact nodup_insertMode _ _ (fun x hx => by rw [hidnew]; exact hne x hx) hi.nodup
+            · have nonorm : (mergeMode Mode.blank m (maskWithId mask)).normal = true → ∀ z ∈ s.modes, z.normal = false := by
+                intro hnew z hz
+                rw [mergeMode_normal, writesNormal_maskWithId] at hnew
+                by_cases hw : writesNormal mask = true
+                · simp only [hw, if_true] at hnew
+                  cases hzn : z.normal with
+                  | false => rfl
+                  | true => exact absurd (guard_passed hi hguard hw hnew z hz hzn) (hne z hz)
+                · simp [hw, Mode.blank, Mode.mk4] at hnew
+              intro x hx y hy hxn hyn
+              have hx := (mem_insertMode _ _ _).mp hx
+              have hy := (mem_insertMode _ _ _).mp hy
+              rcases hx with rfl | hx <;> rcases hy with rfl | hy
+              · rfl
+              · have := nonorm hxn y hy; rw [hyn] at this; cases this
+              · have := nonorm hyn x hx; rw [hxn] at this; cases this
+              · exact hi.i1 x hx y hy hxn hyn
+            · intro hc
+              obtain ⟨x, hx, hxa⟩ := hi.i3 hc
+              exact ⟨x, (mem_insertMode _ _ _).mpr (Or.inr hx), hxa⟩
       | some old =>
         obtain ⟨holdmem, holdid⟩ := find_some hold
-        refine ⟨?_, ?_, ?_, hi.blank⟩
-        · simp only [map_id_replaceMode]; exact hi.nodup
-        · -- I1
-          have key : ∀ y ∈ s.modes, y.normal = true → (mergeMode old m mask).normal = true → y.id = m.id := by
-            intro y hy hyn hnew
-            rw [mergeMode_normal] at hnew
-            by_cases hw : writesNormal mask = true
-            · simp only [hw, if_true] at hnew
-              -- the guard passed: no other normal mode
-              have hno : otherNormal s m.id = false := by
-                cases h : otherNormal s m.id with
-                | false => rfl
-                | true => exact absurd ⟨hnew, hw, h⟩ hguard
-              unfold otherNormal at hno
-              cases hn : normalMode s with
-              | none => have := normalMode_none hn y hy; rw [hyn] at this; cases this
-              | some n =>
-                simp only [hn, bne_eq_false_iff_eq] at hno
-                obtain ⟨hnm, hnn⟩ := normalMode_some hn
-                have := hi.i1 n hnm y hy hnn hyn
-                rw [← this]; exact hno
-            · simp only [hw] at hnew
-              have : old = y := hi.i1 old holdmem y hy (by simpa using hnew) hyn
-              rw [← this]; exact holdid
-          intro x hx y hy hxn hyn
-          obtain ⟨x0, hx0, rfl⟩ := List.mem_map.mp hx
-          obtain ⟨y0, hy0, rfl⟩ := List.mem_map.mp hy
-          have hidnew : (mergeMode old m mask).id = m.id := by
-            cases mask with
-            | none => rfl
-            | some k => simp only [mergeMode]; split <;> simp [holdid]
-          by_cases hx1 : x0.id = (mergeMode old m mask).id <;> by_cases hy1 : y0.id = (mergeMode old m mask).id
-          · simp only [hx1, hy1, if_true]
-          · simp only [hx1, hy1, if_true, if_false] at hxn hyn ⊢
-            exact absurd ((key y0 hy0 hyn hxn).trans hidnew.symm) hy1
-          · simp only [hx1, hy1, if_true, if_false] at hxn hyn ⊢
-            exact absurd ((key x0 hx0 hxn hyn).trans hidnew.symm) hx1
-          · simp only [hx1, hy1, if_false] at hxn hyn ⊢
-            exact hi.i1 x0 hx0 y0 hy0 hxn hyn
-        · intro hc
-          obtain ⟨x, hx, hxa⟩ := hi.i3 hc
-          refine ⟨_, List.mem_map.mpr ⟨x, hx, rfl⟩, ?_⟩
-          show (if x.id = (mergeMode old m mask).id then mergeMode old m mask else x).id = s.active.id
-          split
-          · rename_i h; rw [← h]; exact hxa
-          · exact hxa
+        simp only
+        split
+        · exact hi
+        · split
+          · exact hi
+          · refine ⟨?_, ?_, ?_, hi.blank⟩
+            · simp only [map_id_replaceMode]; exact hi.nodup
+            · -- I1
+              have key : ∀ y ∈ s.modes, y.normal = true → (mergeMode old m (maskWithId mask)).normal = true → y.id = m.id := by
+                intro y hy hyn hnew
+                rw [mergeMode_normal, writesNormal_maskWithId] at hnew
+                by_cases hw : writesNormal mask = true
+                · simp only [hw, if_true] at hnew
+                  exact guard_passed hi hguard hw hnew y hy hyn
+                · simp only [hw] at hnew
+                  have : old = y := hi.i1 old holdmem y hy (by simpa using hnew) hyn
+                  rw [← this]; exact holdid
+              intro x hx y hy hxn hyn
+              obtain ⟨x0, hx0, rfl⟩ := List.mem_map.mp hx
+              obtain ⟨y0, hy0, rfl⟩ := List.mem_map.mp hy
+              by_cases hx1 : x0.id = (mergeMode old m (maskWithId mask)).id <;>
+                by_cases hy1 : y0.id = (mergeMode old m (maskWithId mask)).id
+              · simp only [hx1, hy1, if_true]
+              · simp only [hx1, hy1, if_true, if_false] at hxn hyn ⊢
+                exact absurd ((key y0 hy0 hyn hxn).trans (hidnew old).symm) hy1
+              · simp only [hx1, hy1, if_true, if_false] at hxn hyn ⊢
+                exact absurd ((key x0 hx0 hxn hyn).trans (hidnew old).symm) hx1
+              · simp only [hx1, hy1, if_false] at hxn hyn ⊢
+                exact hi.i1 x0 hx0 y0 hy0 hxn hyn
+            · intro hc
+              obtain ⟨x, hx, hxa⟩ := hi.i3 hc
+              refine ⟨_, List.mem_map.mpr ⟨x, hx, rfl⟩, ?_⟩
+              show (if x.id = (mergeMode old m (maskWithId mask)).id then mergeMode old m (maskWithId mask) else x).id = s.active.id
+              split
+              · rename_i h; rw [← h]; exact hxa
+              · exact hxa
 
 theorem step_inv {s : St} (hi : Inv p s) (op : Op) : Inv p (step s op).1 := by
   cases op with
@@ -254,19 +309,19 @@ theorem step_inv {s : St} (hi : Inv p s) (op : Op) : Inv p (step s op).1 := by
       split
       · rename_i h; rw [h] at this; exact this
       · exact this
-  | update m mask => exact updateMode_inv hi m mask
-  | delete id am => exact deleteMode_inv hi id am
+  | update m mask w => exact updateMode_inv hi m mask w
+  | delete id am ex => exact deleteMode_inv hi id am ex
   | setActive m => exact setActive_inv hi m
   | changeActive id now => exact changeActive_inv hi id now
   | clear now => exact changeToNormal_inv hi now
   | findMode id => exact hi
   | sCreate m cands => simp only [step]; split; exact hi; exact createOrAdd_inv hi m cands
-  | sUpdate m mask => simp only [step]; split; exact hi; exact updateMode_inv hi m mask
+  | sUpdate m mask => simp only [step]; split; exact hi; exact updateMode_inv hi m mask {}
   | sDelete id am =>
     simp only [step]
     split
     · exact hi
-    · have := deleteMode_inv hi id am
+    · have := deleteMode_inv hi id am none
       split
       · rename_i h; rw [h] at this; exact this
       · exact this
